@@ -101,7 +101,7 @@ func checkSeatManagerConstruction(c *Ctx, rule string) {
 		if storeIsLocal(ss.Instr) {
 			continue
 		}
-		c.Check(ss.Fn.Name() == "JoinPlayers", rule, "seated-in-writer:"+FuncName(ss.Fn), p.InstrPos(ss.Instr), "written by the join operation", "the seat manager's seated-in flag is written outside the join operation")
+		c.Check(fnName(ss.Fn) == "JoinPlayers", rule, "seated-in-writer:"+FuncName(ss.Fn), p.InstrPos(ss.Instr), "written by the join operation", "the seat manager's seated-in flag is written outside the join operation")
 	}
 }
 
@@ -318,7 +318,7 @@ func checkPreviousOccupied(c *Ctx, rule string) {
 						return a["seat-exists"] && a["occupied"] && (!a["eligible-only"] || a["active"])
 					}})
 			}
-			c.Check(d == "", rule, "helper-definition:"+f.Name(), p.Pos(f.Pos()), "first occupied seat backwards; with the switch on, first eligible one", "backwards seat search: "+d)
+			c.Check(d == "", rule, "helper-definition:"+fnName(f), p.Pos(f.Pos()), "first occupied seat backwards; with the switch on, first eligible one", "backwards seat search: "+d)
 		}
 	}
 }
